@@ -24,7 +24,7 @@ def main():
         wt = '/tmp/wt/batch-%d' % os.getpid()
         sh('git -C /repo worktree add -q --detach %s HEAD' % wt)
         try:
-            ap = sh('git -C %s apply %s/seeded/%s/patch.diff' % (wt, ROOT, name))
+            ap = sh('git -C %s apply %s/seeded/%s/patch.diff || git -C %s apply --3way %s/seeded/%s/patch.diff' % (wt, ROOT, name, wt, ROOT, name))
             if ap.returncode:
                 out[name] = {'applies': False}
                 print(name, 'PATCH DOES NOT APPLY (the tree moved on)', flush=True)
